@@ -33,7 +33,8 @@ def units(tier, seed):
         if s.get("via") == "registry" and tier == "quick" and s["scheme"] in ("psk", "qam", "pam") and s.get("order", 4) > 4:
             continue
         cost = 1 + (s.get("order", 4) / 8 if s["scheme"] == "psk" else s.get("order", 4) / 64)
-        out.append({"unit": modems.cfg(s), "spec": s, "cost": cost})
+        # all option variants of one scheme and order run one after the other in one process
+        out.append({"unit": modems.cfg(s), "spec": s, "cost": cost, "group": f"{s['scheme']}:{s.get('order', 0)}"})
     return out
 
 
